@@ -30,10 +30,12 @@ class RAM(MemoryType):
 
     def read(self, address, size):
         chunk = self.memory_array[address:address + size]
-        return chunk
+        return bytes(chunk).ljust(size, b'\x00')
 
     def write(self, address, size, value):
-        self.memory_array[address:address + size] = value
+        end = min(address + size, self.size)
+        if address < end:
+            self.memory_array[address:end] = value[:end - address]
 
 
 MEMORY_TYPE_DICT = {
